@@ -137,6 +137,36 @@ def gaugeRun : List GCall → Nat → List Nat
   | .set b :: rest, _ => gaugeRun rest b
   | .flush :: rest, cur => cur :: gaugeRun rest cur
 
+/-! ### gauges with all three update operations
+
+`set` = `inner.store`; `increment`/`decrement` = ONE `inner.fetch_update` (a single read-modify-write: no update is
+lost against a concurrent `set` or another increment), each followed by the `updates` bump; `flush` = `inner.load`.
+A sequentially consistent interleaving is therefore a list of these operations.  `add`/`sub` stand for f64
+addition/subtraction on bit patterns (the driver instantiates them with IEEE-754 double arithmetic). -/
+
+inductive GOp
+  | set (bits : Nat)
+  | incr (bits : Nat)
+  | decr (bits : Nat)
+  | flush
+  deriving Repr, DecidableEq
+
+/-- the gauge's value after a linearized sequence of operations -/
+def gaugeVal (add sub : Nat → Nat → Nat) : List GOp → Nat → Nat
+  | [], cur => cur
+  | .set b :: r, _ => gaugeVal add sub r b
+  | .incr b :: r, cur => gaugeVal add sub r (add cur b)
+  | .decr b :: r, cur => gaugeVal add sub r (sub cur b)
+  | .flush :: r, cur => gaugeVal add sub r cur
+
+/-- what the flushes of the sequence send -/
+def gaugeOps (add sub : Nat → Nat → Nat) : List GOp → Nat → List Nat
+  | [], _ => []
+  | .set b :: r, _ => gaugeOps add sub r b
+  | .incr b :: r, cur => gaugeOps add sub r (add cur b)
+  | .decr b :: r, cur => gaugeOps add sub r (sub cur b)
+  | .flush :: r, cur => cur :: gaugeOps add sub r cur
+
 /-! ### the timestamp decision -/
 
 inductive Mode | conservative | aggressive
